@@ -445,6 +445,45 @@ export class Env {
     return all;
   }
   assignable1(a, b) {
+    this._fuel = (this._fuel ?? 0) + 1;
+    try {
+      if (this._fuel > 40) return null; // recursive definitions: undecided rather than unbounded
+      return this.assignable1x(a, b);
+    } finally {
+      this._fuel--;
+    }
+  }
+  // kinds of values that no beff validator confuses: a member of one kind is never a member of another
+  static kindOf(x) {
+    if (x.c === "lit") return typeof x.v;
+    if (x.c === "prim") return x.p;
+    if (x.c === "nullish") return "nullish";
+    if (x.c === "arr" || x.c === "tuple") return "array";
+    if (x.c === "tpl") return "string";
+    return null; // objects, records, intersections, maps, ...: not classified here
+  }
+  assignable1x(a, b) {
+    const ka = Env.kindOf(a),
+      kb = Env.kindOf(b);
+    if (ka && kb && ka !== kb) return false;
+    if (a.c === "nullish" && b.c === "nullish") return true;
+    if ((ka === "nullish" && b.c === "obj") || (a.c === "obj" && kb === "nullish")) return false;
+    if ((a.c === "tuple" || a.c === "arr") && (b.c === "tuple" || b.c === "arr")) {
+      const all = (pairs) => {
+        let undecided = false;
+        for (const [x, y] of pairs) {
+          const r = this.assignable(x, y);
+          if (r === false) return false;
+          if (r == null) undecided = true;
+        }
+        return undecided ? null : true;
+      };
+      if (a.c === "arr" && b.c === "arr") return all([[a.el, b.el]]);
+      if (a.c === "tuple" && b.c === "arr") return all([...a.items, ...(a.rest ? [a.rest] : [])].map((x) => [x, b.el]));
+      if (a.c === "arr" && b.c === "tuple") return b.items.length > 0 ? false : b.rest ? all([[a.el, b.rest]]) : null;
+      if (!a.rest && !b.rest) return a.items.length !== b.items.length ? false : all(a.items.map((x, i) => [x, b.items[i]]));
+      return null;
+    }
     if (a.c === "lit" && b.c === "lit") return a.v === b.v;
     if (a.c === "lit" && b.c === "prim") return typeof a.v === b.p;
     if (a.c === "prim" && b.c === "prim") return a.p === b.p;
@@ -482,6 +521,22 @@ export class Env {
     return true;
   }
   disjoint1(a, b) {
+    const ka = Env.kindOf(a),
+      kb = Env.kindOf(b);
+    if (ka && kb && ka !== kb) return true;
+    if ((ka === "nullish" && b.c === "obj") || (a.c === "obj" && kb === "nullish")) return true;
+    if (a.c === "tuple" && b.c === "tuple" && !a.rest && !b.rest) {
+      if (a.items.length !== b.items.length) return true;
+      this._fuel = (this._fuel ?? 0) + 1;
+      try {
+        if (this._fuel > 40) return null;
+        for (let i = 0; i < a.items.length; i++) if (this.disjoint(a.items[i], b.items[i]) === true) return true;
+      } finally {
+        this._fuel--;
+      }
+      return null;
+    }
+    if (a.c === "tpl" || b.c === "tpl") return null;
     const scalar = (x) => x.c === "lit" || x.c === "prim";
     const base = (x) => (x.c === "lit" ? typeof x.v : x.p);
     if (scalar(a) && scalar(b)) {
